@@ -111,3 +111,12 @@ def check_history_independence(ctx, module_names: typing.Iterable[str], rule_ali
   b += shape.check_no_memo_decorators(ctx, fs, rule=rule_global)
   ctx.ok(rule_global, f"{len(names)} modules|no process-global state is written", "src/main/python/ttconv", f"{len(fs)} functions scanned; {a + b} tabled exceptions")
   return len(fs)
+
+
+def check_item_handlers(ctx, module_names: typing.Iterable[str]):
+  """LINT-j on the given modules, with its positive fixture (the expected count on the repository is zero)."""
+  from ..rules import lint
+  from ..selfcheck import lint_j_fixture_matches
+  lint.handler_around_loop(ctx, mods(ctx, list(module_names)))
+  ctx.check(lint_j_fixture_matches(), "LINT-j", "fixture|a tolerant handler around a loop is detected", "ttverif/fixtures/lint_j.py",
+            "the rule still matches its positive fixture", "LINT-j no longer matches its positive fixture (rule broken)")
